@@ -4,6 +4,7 @@ import (
 	"context"
 	"errors"
 	"fmt"
+	"sync"
 	"time"
 
 	amhelp "github.com/pancsta/asyncmachine-go/pkg/helpers"
@@ -332,6 +333,235 @@ func RunHelpers(o *Out, seed int64) {
 				o.Emit(RunWaitCase(fn, chans, c))
 				o.Stats["wait:"+fn]++
 			}
+		}
+	}
+}
+
+// ---------------------------------------------------------------------------
+// Sync helpers on LISTS whose members differ (ApiAlgebra Part 3a)
+
+// ListMember: one state of the list handed to the helper.
+type ListMember struct {
+	Pre  bool `json:"pre"`  // active before the call
+	Veto bool `json:"veto"` // its Enter (add) / Exit (remove) handler refuses
+}
+
+type ListScenario struct {
+	Disposed bool `json:"disposed"`
+	Queued   bool `json:"queued"`
+}
+
+type ListLine struct {
+	Ev     string       `json:"ev"`
+	Fn     string       `json:"fn"`
+	Base   string       `json:"base"`
+	Sc     ListScenario `json:"sc"`
+	List   []ListMember `json:"list"`
+	States am.S         `json:"states"`
+	Before []bool       `json:"before"`
+	After  []bool       `json:"after"`
+	Acc    bool         `json:"acc"`
+	Ret    string       `json:"ret"`
+}
+
+var listNames = am.S{"L1", "L2", "L3"}
+
+// listHandlers: every negotiation handler of a member refuses while its name
+// is in veto; Gate blocks.
+type listHandlers struct {
+	mx      sync.Mutex
+	veto    map[string]bool
+	entered chan struct{}
+	release chan struct{}
+}
+
+func (h *listHandlers) ok(name string) bool {
+	h.mx.Lock()
+	defer h.mx.Unlock()
+	return !h.veto[name]
+}
+
+func (h *listHandlers) L1Enter(e *am.Event) bool { return h.ok("L1") }
+func (h *listHandlers) L1Exit(e *am.Event) bool  { return h.ok("L1") }
+func (h *listHandlers) L2Enter(e *am.Event) bool { return h.ok("L2") }
+func (h *listHandlers) L2Exit(e *am.Event) bool  { return h.ok("L2") }
+func (h *listHandlers) L3Enter(e *am.Event) bool { return h.ok("L3") }
+func (h *listHandlers) L3Exit(e *am.Event) bool  { return h.ok("L3") }
+func (h *listHandlers) GateState(e *am.Event) {
+	close(h.entered)
+	<-h.release
+}
+
+func listHelperFns() []helperFn {
+	b := func(v bool) any { return v }
+	mark := am.A{"helper": true}
+	return []helperFn{
+		{"AddSync", "AddSync", true, func(ctx context.Context, m *am.Machine, e *am.Event, s am.S) any {
+			return b(amhelp.AddSync(ctx, m, s, mark))
+		}},
+		{"EvAddSync", "AddSync", true, func(ctx context.Context, m *am.Machine, e *am.Event, s am.S) any {
+			return b(amhelp.EvAddSync(ctx, e, m, s, mark))
+		}},
+		{"RemoveSync", "RemoveSync", false, func(ctx context.Context, m *am.Machine, e *am.Event, s am.S) any {
+			return b(amhelp.RemoveSync(ctx, m, s, mark))
+		}},
+		{"EvRemoveSync", "RemoveSync", false, func(ctx context.Context, m *am.Machine, e *am.Event, s am.S) any {
+			return b(amhelp.EvRemoveSync(ctx, e, m, s, mark))
+		}},
+		// the single-state entry points (lists of one member only)
+		{"Add1Sync", "AddSync", true, func(ctx context.Context, m *am.Machine, e *am.Event, s am.S) any {
+			return b(amhelp.Add1Sync(ctx, m, s[0], mark))
+		}},
+		{"EvAdd1Sync", "AddSync", true, func(ctx context.Context, m *am.Machine, e *am.Event, s am.S) any {
+			return b(amhelp.EvAdd1Sync(ctx, e, m, s[0], mark))
+		}},
+		{"Remove1Sync", "RemoveSync", false, func(ctx context.Context, m *am.Machine, e *am.Event, s am.S) any {
+			return b(amhelp.Remove1Sync(ctx, m, s[0], mark))
+		}},
+		{"EvRemove1Sync", "RemoveSync", false, func(ctx context.Context, m *am.Machine, e *am.Event, s am.S) any {
+			return b(amhelp.EvRemove1Sync(ctx, e, m, s[0], mark))
+		}},
+	}
+}
+
+// RunHelperListCase executes one Sync helper on one member list in one
+// scenario on a fresh machine.
+func RunHelperListCase(hf helperFn, sc ListScenario, list []ListMember, callDeadline time.Duration) ListLine {
+	schema := am.Schema{"L1": {}, "L2": {}, "L3": {}, "D": {}, "Gate": {}}
+	m := am.New(context.Background(), schema, &am.Opts{HandlerTimeout: time.Hour})
+	h := &listHandlers{veto: map[string]bool{}, entered: make(chan struct{}), release: make(chan struct{})}
+	m.HandlersBind(h)
+	tr := &asyncTracer{TracerNoOp: &am.TracerNoOp{Id: "list"}, queued: make(chan struct{}),
+		ended: make(chan struct{}), drained: make(chan struct{})}
+	m.BindTracer(tr)
+	defer m.Dispose()
+
+	states := am.S{}
+	var pre am.S
+	for i, e := range list {
+		states = append(states, listNames[i])
+		if e.Pre {
+			pre = append(pre, listNames[i])
+		}
+	}
+	if len(pre) > 0 {
+		m.Add(pre, nil)
+	}
+	h.mx.Lock()
+	for i, e := range list {
+		if e.Veto {
+			h.veto[listNames[i]] = true
+		}
+	}
+	h.mx.Unlock()
+	read := func() []bool {
+		out := make([]bool, len(states))
+		for i, s := range states {
+			out[i] = m.Is1(s)
+		}
+		return out
+	}
+	line := ListLine{Ev: "helpl", Fn: hf.name, Base: hf.base, Sc: sc, List: list, States: states,
+		Before: read()}
+
+	if sc.Disposed {
+		m.Dispose()
+		<-m.WhenDisposed()
+	}
+	if sc.Queued {
+		go m.Add1("Gate", nil)
+		<-h.entered
+	}
+
+	ctx, cancel := context.WithTimeout(context.Background(), callDeadline-500*time.Millisecond)
+	defer cancel()
+	res := make(chan any, 1)
+	go func() {
+		defer func() {
+			if r := recover(); r != nil {
+				res <- fmt.Sprint("panic: ", r)
+			}
+		}()
+		res <- hf.call(ctx, m, nil, states)
+	}()
+
+	if sc.Queued {
+		// the helper's mutation sits in the queue; an accepted mutation of a
+		// state outside the list goes behind it, then the running handler ends
+		select {
+		case <-tr.queued:
+		case <-time.After(2 * time.Second):
+		}
+		m.Add1("D", nil)
+		close(h.release)
+	}
+
+	select {
+	case v := <-res:
+		switch v := v.(type) {
+		case bool:
+			line.Ret = fmt.Sprint(v)
+		case string:
+			line.Ret = v
+		}
+	case <-time.After(callDeadline):
+		line.Ret = "blocked"
+	}
+	line.After = read()
+	tr.mx.Lock()
+	line.Acc = tr.isEnded && tr.accepted
+	tr.mx.Unlock()
+	return line
+}
+
+// RunHelperLists: every list entry point x {direct, queued, disposed} x every
+// list of 1..maxList members over (active before, vetoing).
+func RunHelperLists(o *Out, maxList int) {
+	if maxList > len(listNames) {
+		maxList = len(listNames)
+	}
+	type job struct {
+		hf   helperFn
+		sc   ListScenario
+		list []ListMember
+	}
+	var jobs []job
+	for fi, hf := range listHelperFns() {
+		single := fi >= 4
+		for n := 1; n <= maxList; n++ {
+			if single && n > 1 {
+				continue
+			}
+			for code := 0; code < 1<<(2*n); code++ {
+				list := make([]ListMember, n)
+				for i := range list {
+					list[i] = ListMember{Pre: code>>(2*i)&1 != 0, Veto: code>>(2*i+1)&1 != 0}
+				}
+				for _, sc := range []ListScenario{{false, false}, {false, true}, {true, false}} {
+					jobs = append(jobs, job{hf, sc, list})
+				}
+			}
+		}
+	}
+	lines := make([]ListLine, len(jobs))
+	sem := make(chan struct{}, 16)
+	done := make(chan struct{}, len(jobs))
+	for i, j := range jobs {
+		sem <- struct{}{}
+		go func(i int, j job) {
+			lines[i] = RunHelperListCase(j.hf, j.sc, j.list, 3*time.Second)
+			<-sem
+			done <- struct{}{}
+		}(i, j)
+	}
+	for range jobs {
+		<-done
+	}
+	for _, l := range lines {
+		o.Emit(l)
+		o.Stats["helplist:"+l.Base]++
+		if l.Ret == "blocked" {
+			o.Stats["helplist-blocked"]++
 		}
 	}
 }
